@@ -312,7 +312,9 @@ def oracle_c11(b, report):
             if node is None and b.reopen_points:
                 # a boot file without any name that went through write + open: the format records only the number of 512-byte
                 # sectors to load, so that is all that can be known of it afterwards
-                cmp_len = min(cmp_len, e['sector_count'] * 512)
+                # ... so that was all that could be asked before fix 9223b0e; a nameless boot file now keeps everything up to the
+                # next file, i.e. all of its bytes
+                pass
             if b.img[start:start + cmp_len] != content[:cmp_len]:
                 report('eltorito-boot-bytes', 'the sector the boot entry for %s points at does not hold the boot file bytes' % bf, None)
         if e['boot_indicator'] != (0x88 if op.get('bootable', True) else 0):
